@@ -59,6 +59,10 @@ CHECKS = {
    technique="TLC model checking of AnkoLexer.tla (scanner with offset/lineHead/line bookkeeping) against its declarative characterisation for all strings of bounded alphabets + replay of every token stream through the real Scanner.Scan + TLC validation of ParseSrc observations (totality, error position range, determinism, composition)",
    text="The scanner is specified as it is written (two-character lookahead by next/peek/back, numbers, strings, raw strings, comments) and TLC shows for every bounded string that line/column bookkeeping is exact, every scan makes progress and reported positions lie inside the input; the real scanner must produce the same token kinds, positions and internal state after each token. ParseSrc itself is exercised on those strings, a grammar corpus, all truncations, deletions, random bytes and deep nestings under a watchdog, and all ordered pairs of a pool of valid programs are checked for composition with shifted positions.",
    note="Trusted: TLC; one representative rune per character class; the goyacc LALR driver is exercised, not modelled (exploration for that part). Bounds: all strings <= 4 over 20 classes, <= 6-8 over four 6-8 class sub-alphabets; ~13k (quick) parse inputs and ~15k composition pairs."),
+ "C03": dict(level="model_checking", design="5 (C03), 3.7",
+   technique="TLC: operator table as data (AnkoGrammar.tla) with UnparseMin/UnparseFull and an independent declarative parser ParseRef, self-consistency checked on every tree; both spellings of every tree replayed through the real parser (tree equality, value equality, 18 statement positions); AnkoLiteral.tla computes literal denotations with Int64",
+   text="The grammar's meaning is specified independently of the yacc file as a precedence/associativity table; TLC proves the table self-consistent on all expression trees up to depth 2 (depth 3 over level representatives in thorough) including every binary/unary operator pair, and the generated parser must build exactly the specified tree from the minimally and the fully parenthesised spelling, evaluate both to the same value and agree in every statement position. Integer literal denotations are computed exactly in TLA+ (edges of int64 in decimal, hex, binary), string escapes by a transducer.",
+   note="Trusted: TLC; float literal values are a primitive supplied by the case generator (correctly rounded conversion); yacc conflict resolution is observed, not derived. Bounds: ~17.7k trees (quick), 165 literal spellings. One recorded deviation: `in` is right-associative (pinned by the repository's own test)."),
 # <<ADD>>
 }
 
